@@ -647,6 +647,11 @@ class World(masterloop.LoopWorld):
                 if name in children or self.zk.nodes.get(
                         z.path.server_presence(name)) is not None:
                     truth.absent.pop(name, None)
+                elif name in self.intruded:
+                    # its presence changed while the master was at work:
+                    # whether the master found it there is not known
+                    truth.absent.pop(name, None)
+                    truth.told_gone.discard(name)
                 else:
                     truth.told_gone.add(name)
                     if name not in truth.absent:
